@@ -294,29 +294,38 @@ def anyRestr (C : Ctx) (self other : Particle) (co : Bool) : Bool :=
     else isRestriction w ow (C.of i).pc (C.of j).pc
   | _, _ => false
 
-/-- the clauses of `XsdElement.is_restriction` for an element base (elements.py:1139-1175) -/
-def elemElemRestr (C : Ctx) (i : Nat) (names : List QN) (lo : Nat) (hi : Option Nat)
-    (j : Nat) (onames : List QN) (olo : Nat) (ohi : Option Nat) (co : Bool) : Bool :=
+/-- the name clause of `XsdElement.is_restriction` for an element base (elements.py:1140-1157) -/
+def elemNameOk (C : Ctx) (i : Nat) (names : List QN) (hi : Option Nat)
+    (j : Nat) (onames : List QN) (olo : Nat) (ohi : Option Nat) : Bool :=
   let s := C.of i
   let o := C.of j
   let name := names.head?
   let oname := onames.head?
-  let nameOk :=
-    if name != oname then
-      if oname == s.substGroup && oname.isSome && some olo != ohi && hi != some 0 && !o.abstract && !C.v11
-      then false
-      else match name with | none => false | some q => o.subs.contains q
-    else true
-  if !nameOk then false
-  else if co && !hasOccursRestriction lo hi olo ohi then false
-  else if hi == some 0 && co then true
-  else if name == oname && s.typeId != o.typeId && !C.derivOk.contains (s.typeId, o.typeId)
+  if name != oname then
+    if oname == s.substGroup && oname.isSome && some olo != ohi && hi != some 0 && !o.abstract && !C.v11
+    then false
+    else match name with | none => false | some q => o.subs.contains q
+  else true
+
+/-- the declaration clauses (type, fixed, nillable, block, identities; elements.py:1163-1175) -/
+def elemDeclOk (C : Ctx) (i : Nat) (names : List QN) (j : Nat) (onames : List QN) : Bool :=
+  let s := C.of i
+  let o := C.of j
+  if names.head? == onames.head? && s.typeId != o.typeId && !C.derivOk.contains (s.typeId, o.typeId)
       && !o.typeAbstract then false
   else if o.fixed.isSome && (s.fixed.isNone || s.fixed != o.fixed) then false
   else if !o.nillable && s.nillable then false
   else if o.block.any (fun v => !s.block.contains v) then false
   else if !s.idents.all (fun k => o.idents.contains k) then false
   else true
+
+/-- the clauses of `XsdElement.is_restriction` for an element base (elements.py:1139-1175) -/
+def elemElemRestr (C : Ctx) (i : Nat) (names : List QN) (lo : Nat) (hi : Option Nat)
+    (j : Nat) (onames : List QN) (olo : Nat) (ohi : Option Nat) (co : Bool) : Bool :=
+  if !elemNameOk C i names hi j onames olo ohi then false
+  else if co && !hasOccursRestriction lo hi olo ohi then false
+  else if hi == some 0 && co then true
+  else elemDeclOk C i names j onames
 
 /-- `XsdElement.is_restriction` (elements.py:1128-1203) -/
 def elemRestr (C : Ctx) (rec : Rec) (self other : Particle) (co : Bool) : Except Err Bool :=
@@ -742,5 +751,10 @@ def groupIsEmpty (C : Ctx) (g : Particle) : Bool :=
 def typeRestrictionAccepted (C : Ctx) (d b : Particle) : Except Err Bool := do
   let r ← contentRestriction C d b
   return admitsRestriction C b d.kind && !(groupIsEmpty C b && !groupIsEmpty C d) && r
+
+/-- the rule answered `True` (neither `False` nor an error value) -/
+def okTrue : Except Err Bool → Bool
+  | .ok true => true
+  | _ => false
 
 end XsVerif.Restr
